@@ -191,9 +191,9 @@ pub fn gen_zone(rng: &mut Rng, cfg: &ZoneCfg) -> ZoneSpec {
         if !leaps.is_empty() && rng.chance(1, 4) {
             // land on a leap record
             let (l, _) = *rng.pick(&leaps.0);
-            let tgt = l + *rng.pick(&[-1i64, 0, 1]);
+            let tgt = l.saturating_add(*rng.pick(&[-1i64, 0, 1]));
             if tgt < prev {
-                gap = prev - tgt;
+                gap = prev.saturating_sub(tgt);
             }
         }
         match prev.checked_sub(gap) {
